@@ -13,16 +13,29 @@ IsnSeq == <<0>> \o [k \in 1..(L + 2) |-> M - k]
 \* rotate with the seed
 Combos == << <<0, -1>>, <<1, -1>>, <<2, -1>>, <<0, 0>>, <<1, 0>>, <<2, 0>>, <<0, 2>>, <<1, 2>>, <<2, 2>>,
              <<0, 3>>, <<1, 3>>, <<2, 3>> >>
-MC_CfgsQuick == {[limit |-> Combos[i][1], keep |-> Combos[i][2], force |-> ((i + Seed) % 2 = 0),
+MC_CfgsAll12 == {[limit |-> Combos[i][1], keep |-> Combos[i][2], force |-> ((i + Seed) % 2 = 0),
                   isn |-> IsnSeq[((i + Seed) % Len(IsnSeq)) + 1], remove |-> ((i + Seed) % 4 # 0)] : i \in 1..Len(Combos)}
-MC_CfgsSmall == {c \in MC_CfgsQuick : c.keep \in {-1, 2} /\ c.limit \in {0, 1}}
+\* the quick tier takes 6 of the 12 (which ones rotates with the seed)
+MC_CfgsQuick == {[limit |-> Combos[i][1], keep |-> Combos[i][2], force |-> ((i + Seed) % 2 = 0),
+                  isn |-> IsnSeq[((i + Seed) % Len(IsnSeq)) + 1], remove |-> ((i + Seed) % 4 # 0)] :
+                 i \in {j \in 1..Len(Combos) : (j + Seed) % 2 = 0}}
 \* thorough grid: the full product with ReassemblyComplete answering true, plus the quick grid answering false
 MC_CfgsThorough == [limit : {0, 1, 2}, keep : {-1, 0, 2, 3}, force : BOOLEAN, isn : {0} \cup WrapIsns, remove : {TRUE}]
-                   \cup {[c EXCEPT !.remove = FALSE] : c \in MC_CfgsQuick}
+                   \cup {[c EXCEPT !.remove = FALSE] : c \in MC_CfgsAll12}
 MC_CfgsSmoke == [limit : {0, 1}, keep : {-1, 2}, force : {FALSE, TRUE}, isn : {M - 2}, remove : {TRUE}]
 
 \* configurations for the defect-finding runs (pre-fix shapes of the code switched on through constants)
 MC_CfgsWrap == [limit : {0}, keep : {-1}, force : BOOLEAN, isn : WrapIsns, remove : {TRUE}]
 MC_CfgsKeep == [limit : {0, 2}, keep : {0, 2}, force : BOOLEAN, isn : {0}, remove : {TRUE}]
+MC_CfgsClean == [limit : {0}, keep : {2}, force : {FALSE}, isn : {0}, remove : {TRUE}]
 MC_CfgsFin == [limit : {1, 2}, keep : {-1}, force : BOOLEAN, isn : {0}, remove : {TRUE}]
+
+\* scripted scenarios (escalations of design-level findings beyond the exhaustive bound)
+MC_NoScript == <<>>
+\* half.pages drifts below the pages really held (HalfPagesExact): with KeepFrom(half) every in-order packet is kept
+\* uncounted and released counted, so after four of them three out-of-order pages fit under a limit of one
+MC_ScriptPageLimit == << <<"seg", 0, 0, 1, FALSE, FALSE>>, <<"seg", 0, 1, 2, FALSE, FALSE>>, <<"seg", 0, 2, 3, FALSE, FALSE>>,
+                         <<"seg", 0, 3, 4, FALSE, FALSE>>, <<"seg", 0, 5, 6, FALSE, FALSE>>, <<"seg", 0, 7, 8, FALSE, FALSE>>,
+                         <<"seg", 0, 9, 10, FALSE, FALSE>>, <<"flushall">> >>
+MC_CfgsScript == {[limit |-> 1, keep |-> 2, force |-> TRUE, isn |-> 0, remove |-> TRUE]}
 =============================================================================
